@@ -248,6 +248,7 @@ struct QRec {
     pos: u64,
     est_start: u64,   // shadow: instant of the estimator's last restart
     stale: bool,      // shadow: at the last reset op prev_steps != position after the reset
+    changed: bool,    // shadow: this op changed the estimator (accepted sample / restart) or finished the bar
 }
 
 struct Run {
@@ -293,7 +294,9 @@ fn drive(len0: Option<u64>, t0: u64, ops: &[Op]) -> Run {
             run.panic = Some(format!("op #{i} {} panicked: {e}", o.coq()));
             break;
         }
+        let before = (sh.prev_steps, sh.prev_time, sh.start_time, sh.done);
         let attempted = sh.step(o, now, &mut len, &mut tbl);
+        let changed = before != (sh.prev_steps, sh.prev_time, sh.start_time, sh.done) || o.is_reset();
         match attempted {
             Some(true) => run.recorded += 1,
             Some(false) => {
@@ -320,6 +323,7 @@ fn drive(len0: Option<u64>, t0: u64, ops: &[Op]) -> Run {
                     pos: sh.pos,
                     est_start: sh.start_time,
                     stale,
+                    changed,
                 }),
                 Err(e) => {
                     run.panic = Some(format!("query after op #{i} panicked: {e}"));
@@ -391,7 +395,11 @@ fn oracle(s: &mut Session, st: &mut Stats, desc: &str, ops: &[Op], run: &Run, st
         s.fail("panic", p.clone(), desc.to_string());
         return;
     }
-    // stall windows: maximal runs of readings with no update in between
+    // stall windows: maximal runs of readings during which the estimator received no sample and
+    // was not restarted (calls that do not reach it - a tick without progress, an update
+    // throttled by the position limiter - do not end the stall).  SCOPE DECISION taken from the
+    // shadow (`changed`): where a window starts.  A wrong shadow shows up as a correspondence
+    // mismatch (missing powf entry), so it cannot silently hide a rise.
     let mut window: Vec<(u64, f64)> = vec![];
     let mut window_m = 0f64;
     let flush = |s: &mut Session, st: &mut Stats, w: &mut Vec<(u64, f64)>, m: f64| {
@@ -452,7 +460,9 @@ fn oracle(s: &mut Session, st: &mut Stats, desc: &str, ops: &[Op], run: &Run, st
         let in_scope = q.t > q.est_start; // strictly after creation / last estimator restart
         let is_update = !q.explicit;
         if is_update {
-            flush(s, st, &mut window, window_m);
+            if q.changed {
+                flush(s, st, &mut window, window_m);
+            }
             last_update_op = q.op_index;
         }
         let ob = &q.obs;
@@ -545,7 +555,7 @@ fn oracle(s: &mut Session, st: &mut Stats, desc: &str, ops: &[Op], run: &Run, st
                 }
             }
         }
-        if is_update {
+        if window.is_empty() {
             window_m = m;
         }
         window.push((q.t, ob.per_sec));
@@ -1019,6 +1029,31 @@ fn main() {
         ops.push(Op::Adv(5000 * S));
         ops.push(Op::Query);
         emit(&mut s, &mut st, "corpus-D11", Some(100_000), 5 * S, &ops, true, None);
+    }
+    // the witness of Theorem C09_bar_stall_decay_refuted (props/C09.v), replayed on the real code:
+    // over R the rate at the last sample (t = 30 s) is exactly 8199/99 and it is larger 0.5 s later
+    {
+        let ops = vec![
+            Op::Adv(15 * S), Op::UpdPos(15), Op::Adv(15 * S), Op::UpdPos(1515), Op::Query,
+            Op::Adv(S / 2), Op::Query, Op::Adv(5 * S), Op::Query, Op::Adv(60 * S), Op::Query,
+        ];
+        let run = emit(&mut s, &mut st, "corpus-D11-coq-witness", Some(100_000), 0, &ops, true, None);
+        let qs: Vec<&QRec> = run.q.iter().filter(|q| q.explicit).collect();
+        let desc = "corpus-D11-coq-witness".to_string();
+        if qs.len() == 4 {
+            let want = 8199.0 / 99.0;
+            if ((qs[0].obs.per_sec - want) / want).abs() > REL {
+                s.fail("coq-witness-value", format!("per_sec at the last sample = {} but the R-model gives 8199/99 = {want}", qs[0].obs.per_sec), desc.clone());
+            }
+            if !(qs[1].obs.per_sec > qs[0].obs.per_sec) {
+                // the refutation witness no longer fails on the implementation: the finding is stale
+                s.notes.push(format!("D11 witness does NOT rise on the implementation any more: {} then {}", qs[0].obs.per_sec, qs[1].obs.per_sec));
+            } else {
+                s.notes.push(format!("D11 Coq witness replayed on the implementation: per_sec {} at the last sample, {} after 0.5 s of stall (rises, as proved over R)", qs[0].obs.per_sec, qs[1].obs.per_sec));
+            }
+        } else {
+            s.fail("panic", "coq witness did not produce 4 observations".into(), desc);
+        }
     }
     // reset-stale-baseline witnesses A and B (fixed by d7a46c1: must pass)
     forget_case(&mut s, &mut st, "corpus-reset-A", Some(1000), 5 * S,
